@@ -144,6 +144,21 @@ theorem fac_configures_ready_service (a : Fac) (f ip : Nat) (iok : Bool) (cfg w 
   rw [hd] at h
   exact ⟨h.1, h.2.1⟩
 
+/-- no stale readiness: whatever the combined service answered before, once an inner service starts a
+new readiness round that does not begin with `Ready(Ok)` (it is Pending again after a call consumed
+its capacity, or it broke) the combined service does not report ready — there is no readiness state
+outside the leaves -/
+theorem no_stale_readiness (s : Svc) (i rp : Nat) (rok : Bool) (w : Nat) (hi : i ∈ leafIds s)
+    (hs : leafStep i rp rok ≠ .ok) : (pollReady (rescript s i rp rok) w).2.1 ≠ .ok := by
+  intro h
+  exact hs ((ready_conj _ w).1 h _ (rescript_step_mem s i rp rok hi))
+
+/-- … and when it reports ready every inner service has been asked in this very poll, with the
+current waker (readiness is never answered from a cache) -/
+theorem ready_asks_every_inner (s : Svc) (w : Nat) (h : (pollReady s w).2.1 = .ok) :
+    rdyPolls (pollReady s w).2.2 = (leafIds s).map (fun i => (i, w)) :=
+  (ready_obs s w).2.2.1 (by intro e he; rw [h] at he; cases he)
+
 /-! ## Non-vacuity -/
 
 def exSvc : Svc :=
@@ -176,5 +191,11 @@ example : ∃ e ∈ (ipoll (.cfgB (.leaf 0 0 true 1 true) 52 0 true 5) 3).2.2, i
 example : (ipoll (newService (.transform 31 1 true none (.leaf 60 0 true true (.fnSvc 11 true))) 4).1 9).2.1 = none := by
   decide
 example : rdyDen (.andThen (.leaf 0 0 true 2 true) (.fnSvc 11 true)) = (2, .ok) := by decide
+
+/-- ready, then leaf 0 is Pending again behind a boxed wrapper: not ready -/
+example : (pollReady (.wrap .boxed (.leaf 0 0 true 0 true)) 3).2.1 = .ok := by decide
+example : (pollReady (rescript (.wrap .boxed (.leaf 0 0 true 0 true)) 0 1 true) 4).2.1 = .pending := by decide
+example : (pollReady (rescript (.wrap .boxed (.leaf 0 0 true 0 true)) 0 1 true) 4).2.1 ≠ .ok :=
+  no_stale_readiness _ 0 1 true 4 (by decide) (by decide)
 
 end ActixNet.C12
